@@ -30,7 +30,7 @@ open Galaxy.Generated.Policy
     matches lives in the policy's namespace, both selectors provided every pod the pod selector matches lives in a
     namespace the namespace selector matches; non-empty peer lists; every port entry numbered; per rule any number
     of ipBlocks whose excepts are strictly narrower than their own cidr and share no address with the cidr of another
-    ipBlock of the rule; no pod of the node isolated in both directions; not both
+    ipBlock of the rule; no emitted rule with more than 15 ports of one protocol (iptables' multiport limit); no pod of the node isolated in both directions; not both
     (source egress-isolated here) and (destination ingress-isolated here); INPUT/OUTPUT flows address the host. -/
 theorem enforces_k8s_partial (c : Cluster) (ps : List NetPol) (node : String) (f : Flow)
     (h : inFragment c ps node f = true) :
@@ -184,6 +184,22 @@ theorem counter_relabel_stale :
     walk (compileSets cNew ps) (compileTable cNew ps "node1") f = .drop ∧
     (fullSync k cNew ps "node1").2 = [] ∧
     walk (fullSync k cNew ps "node1").1.sets (fullSync k cNew ps "node1").1.tbl f = .drop := by
+  decide
+
+/-- (m) MULTIPORT LIMIT (corpus/C16/m.ops): policy x allows 16 TCP ports from namespace ns1.  galaxy emits one rule whose
+    multiport match lists 16 ports; iptables takes at most 15 and refuses the rule and with it the whole batch, so no
+    policy chain and (the pod batches jumping to missing chains) no pod chain exists: the node enforces NOTHING — a flow
+    to port 9999 is accepted although the API semantics refuse it.  `inFragment` excludes it (`overLimit`). -/
+theorem counter_multiport :
+    let c : Cluster := ⟨nss2, [podA, podB "node2" "b"]⟩
+    let ps := [polX [.ingress] [⟨[.nss (lbl [("name", "ns1")])],
+      (List.range 16).map (fun i => (⟨.tcp, some (8000 + i)⟩ : Port))⟩] []]
+    let f : Flow := ⟨.forward, .tcp, ip4 10 0 1 2, ip4 10 0 1 1, 9999⟩
+    overLimit ps = true ∧ inFragment c ps "node1" f = false ∧
+    walk (compileSets c ps) (compileTable c ps "node1") f = .accept ∧ k8sAllowsOn "node1" c ps f = false ∧
+    -- the same from the empty kernel through the sync model: batch refused, then the pod batch dangles
+    (fullSync ⟨[], [(.forward, []), (.input, []), (.output, [])]⟩ c ps "node1").2 =
+      [.restoreTooManyPorts, .restoreNoTarget] := by
   decide
 
 /-- every hypothesis class of the fragment is needed: each witness above is outside `inFragment` -/
